@@ -67,3 +67,11 @@ def applyK3 (r : Rect3) (old rhs : F3 K) : F3 K :=
     applyK3 r old rhs i j k = old i j k := by simp [applyK3, h]
 
 end Sopht
+
+namespace Sopht
+/-- hooks for the transcendental atoms that occur in a few kernels (`sin`, `π`): instantiated with
+`Real.sin`/`Real.pi` in theorems, with a float-backed rational approximation in the drivers -/
+structure Transc (K : Type) where
+  sin : K → K
+  pi : K
+end Sopht
